@@ -1,6 +1,8 @@
 #!/bin/bash
 # selftest/benign.sh [patch...] — behaviour-preserving refactorings (produced by sub-agents that saw only the code): every check must
-# stay quiet on them.  Applies each patch to a scratch copy of /repo and runs all 16 quick checks there; prints QUIET or ALARM.
+# stay quiet on them.  Applies each patch to a scratch copy of /repo and runs `govc check ALL` there (every unit, scan, lemma and
+# always-bounded check of every property once: an obligation's outcome does not depend on the property it is counted under);
+# BENIGN_PER_PROPERTY=1 runs the 16 quick checks one by one instead.  Prints QUIET or ALARM.
 export GOFLAGS=-mod=mod GOPROXY=off GOSUMDB=off GOTOOLCHAIN=local
 cd /verif
 files=("$@"); [ ${#files[@]} -eq 0 ] && files=(selftest/benign/*.diff)
@@ -10,7 +12,8 @@ for f in "${files[@]}"; do
   rsync -a --exclude .git /repo/ "$d/"
   if ! (cd "$d" && patch -p1 -s < "/verif/$f"); then echo "STALE  $f (does not apply)"; rm -rf "$d" "$o"; continue; fi
   bad=""
-  for p in C01 C02 C04 C05 C06 C07 C08 C09 C10 C11 C12 C13 C14 C15 C17 C18; do
+  plist="ALL"; [ -n "$BENIGN_PER_PROPERTY" ] && plist="C01 C02 C04 C05 C06 C07 C08 C09 C10 C11 C12 C13 C14 C15 C17 C18"
+  for p in $plist; do
     out=$(/verif/bin/govc check "$p" -repo "$d" -out "$o" 2>&1); st=$?
     v=$(echo "$out" | grep -c '^VIOLATION'); u=$(echo "$out" | grep -c '^UNDECIDED')
     if [ $st -ne 0 ] || [ $v -ne 0 ]; then bad="$bad $p(exit=$st,violations=$v)"; echo "$out" | grep -E '^VIOLATION|^UNDECIDED' | sed "s|$d|<scratch>|g; s|$o|<out>|g" | cut -c1-260 | sed 's/^/        /' | head -6
